@@ -286,7 +286,7 @@ def cases(tier):
     mp = 64 if not th else 512
     to = 30000 if not th else 120000
     out = []
-    keysets = [('X', 'Y'), ('Xi', 'D', 'Yq')] + ([('X', 'Y', 'Z', 'D'), ('Xiq',), ('H', 'H1', 'D')] if th else [])
+    keysets = [('X', 'Y'), ('Xi', 'D', 'Yq')] + ([('X', 'Y', 'Z', 'D'), ('Xiq',), ('H', 'H1', 'D'), ('Xi', 'Xq', 'Y', 'D'), ('H1', 'D', 'T', 'Yq'), ('W', 'Wi', 'C', 'N')] if th else [])
     for ks in keysets:
         nm = '+'.join(ks)
         out.append(Case('density_scaling[%s]' % nm, _density_scaling(ks), max_paths=mp, timeout_ms=to, portfolio=th))
@@ -303,7 +303,8 @@ def cases(tier):
     out.append(Case('conversions', _conversions, max_paths=16, timeout_ms=to))
     vec = [(('X', 'Y'), 1, 'wavelength'), (('X', 'Y'), 2, 'wavelength'), (('Xi', 'D'), 2, 'list'), (('X',), 2, 'energy')]
     if th:
-        vec += [(('X', 'Y'), 3, 'wavelength'), (('Xi', 'D', 'Yq'), 2, 'wavelength'), (('X', 'Y'), 3, 'energy')]
+        vec += [(('X', 'Y'), 3, 'wavelength'), (('Xi', 'D', 'Yq'), 2, 'wavelength'), (('X', 'Y'), 3, 'energy'), (('X',), 4, 'wavelength'),
+                (('Xi', 'D', 'Yq'), 3, 'list'), (('Xiq', 'H1'), 2, 'energy')]
     for ks, n, kind in vec:
         out.append(Case('vector[%s|n=%d|%s]' % ('+'.join(ks), n, kind), _vector(ks, n, kind), max_paths=mp * 4,
                         timeout_ms=to, portfolio=th))
